@@ -103,6 +103,7 @@ Compare(e, pred, obs, old, tag) ==
 Regroup(st, items) == IF st.grpBy = "" THEN items ELSE GroupItems(items, st.grpBy)
 (* a block list that regrouping would rebuild as it is (not the case e.g. after the unnamed leading block was
    moved behind a named one: its entries then follow a heading and regrouping merges them into that block) *)
+DupHead(st) == st.grpBy # "" /\ ~HeadingsDistinct(st.items, st.grpBy)
 CanonicalGrouping(st) == st.grpBy = "" \/ Struct(GroupItems(st.items, st.grpBy)) = Struct(st.items)
 SameSettings(a, b) == a.plat = b.plat /\ a.typ = b.typ /\ a.name = b.name /\ a.grpBy = b.grpBy /\ a.portNr = b.portNr /\ a.protoNr = b.protoNr
 
@@ -150,6 +151,8 @@ ActionClauses(e) ==
              \o Chk(SameSettings(o, pre), e, "C19.settings")
              \o Chk(~unsafe, e, "C19.multi-port-neq-split-changes-meaning")
     [] e.act = "Resequence" ->
+         IF ~R!NoEmptyBlock(ToTree(pre.items)) THEN <<>>          \* a group without entries is outside the domain
+         ELSE
          LET p == R!ResequenceF(ToTree(pre.items), e.s, e.d) IN
          Chk(p.ok = (e.exc = ""), e, "C10.accept-or-refuse")
          \o Chk(Means(o.items) = Means(pre.items) /\ Struct(o.items) = Struct(pre.items) /\ Notes(o.items) = Notes(pre.items)
@@ -160,6 +163,7 @@ ActionClauses(e) ==
          \o Compare(e, IF e.prefix = "" THEN pre.items ELSE GroupItems(pre.items, e.prefix), o.items, old, "C15")
          \o Chk(o.grpBy = (IF e.prefix = "" THEN pre.grpBy ELSE e.prefix), e, "C15.settings")
          \o Chk(HeadingsDistinct(pre.items, e.prefix) => (Means(o.items) = Means(pre.items) /\ Ids(o.items) = Ids(pre.items)), e, "C15.grouping-lost-or-reordered-an-entry")
+         \o Chk(e.prefix = "" \/ HeadingsDistinct(pre.items, e.prefix) \/ Len(Fl(o.items)) = Len(Fl(pre.items)), e, "C15.duplicate-heading-remark-dropped-by-regrouping")
     [] e.act = "Ungroup" ->
          Chk(e.exc = "", e, "C15.ungroup-raised")
          \o Compare(e, Fl(pre.items), o.items, old, "C15") \o Chk(o.grpBy = "", e, "C15.settings")
@@ -195,16 +199,20 @@ ActionClauses(e) ==
              Chk(o = pre, e, "C16.copy-changed-source")
              \o Chk(Means(tw.items) = Means(pre.items) /\ Seqs(tw.items) = Seqs(pre.items) /\ SameSettings(tw, pre)
                     /\ (e.act = "Reparse" \/ ~CanonicalGrouping(pre) \/ Struct(tw.items) = Struct(pre.items)), e,
-                    IF e.act = "Reparse" THEN "C17.text-does-not-parse-back-to-itself" ELSE "C16.copy-not-equal")
+                    IF DupHead(pre) THEN "C15.duplicate-heading-remark-dropped-by-regrouping"
+                    ELSE IF e.act = "Reparse" THEN "C17.text-does-not-parse-back-to-itself" ELSE "C16.copy-not-equal")
              \o Chk(e.act = "Reparse" \/ Struct(tw.items) # Struct(pre.items) \/ BlockSeqs(tw.items) = BlockSeqs(pre.items), e, "C16.copy-block-number-differs")
              \o Chk(e.twin_text_equal /\ (e.act = "Reparse" \/ ~CanonicalGrouping(pre) \/ e.twin_data_equal), e,
-                    IF e.act = "Reparse" THEN "C17.text-does-not-parse-back-to-itself" ELSE "C16.copy-text-or-data-differs")
+                    IF DupHead(pre) THEN "C15.duplicate-heading-remark-dropped-by-regrouping"
+                    ELSE IF e.act = "Reparse" THEN "C17.text-does-not-parse-back-to-itself" ELSE "C16.copy-text-or-data-differs")
              \o (IF e.act = "Reparse" THEN <<>> ELSE
                  Chk(Notes(tw.items) = Notes(pre.items) /\ tw.note = pre.note, e, "C16.copy-lost-note")
                  \o Chk(e.act = "DataRoundTrip" \/ (AllIds(tw) \cap AllIds(pre)) \subseteq {""}, e, "C16.copy-shares-identifiers")
                  \o Chk(e.shared_mutables = 0, e, "C16.copy-shares-mutable-state")))
     [] e.act = "TwinOp" ->        \* an operation applied to the twin: the source must stay as it is
          Chk(o = pre, e, "C16.mutating-the-copy-changed-the-source")
+    [] e.act = "EditEntry" -> Chk(e.exc = "", e, "C17.edit-raised")         \* an entry edited in place through its own API: no prediction,
+                                                                          \* the consistency clauses and the following steps judge the result
     [] e.act \in {"Shading", "ShadowOf", "DeleteShadow"} -> <<>>      \* handled by ShadowClauses
     [] OTHER -> Fail(e, "machinery.unknown-action")
 
